@@ -8,7 +8,7 @@
      3. the walk: a relation `simr Q c1 c2` between thread code and plain code that is reflexive on
         the class, compatible with `bind`, and holds for the thread step, holds for the whole
         programs `spec (with_spawn true p)` / `spec (with_spawn false p)` (`walk_program`). *)
-From Coq Require Import ZArith Lia List.
+From Coq Require Import ZArith Lia List Sorted.
 From Join Require Import Tok Names Ast Comp Std Denote Spec CompLaws Leaves SpecProps Threads ThreadsProps.
 Import ListNotations.
 
@@ -545,3 +545,105 @@ Section Walk.
                (let! d := spec msem dotsem callsem awaitsem pp in to_val d).
   Proof. eapply simr_bind; [apply walk_spec|]. intros d _. apply simr_refl. eapply cls_to_val; eauto. Qed.
 End Walk.
+
+(* ================================================================== *)
+(** * 4. The same walk, knowing WHICH branches a thread step runs       *)
+(* ================================================================== *)
+
+(* the active branches of a step: branch indices below the number of branches, strictly increasing *)
+Lemma actives_lt (p : sprog) k : Forall (fun b => b < List.length (sp_trees p)) (actives p k).
+Proof.
+  unfold actives. apply Forall_forall. intros b Hb. apply filter_In in Hb. destruct Hb as [Hb _].
+  apply in_seq in Hb. lia.
+Qed.
+
+Lemma filter_seq_sorted (f : nat -> bool) len : forall start, Sorted.StronglySorted lt (filter f (seq start len)).
+Proof.
+  induction len as [|len IH]; intros start; cbn [seq filter]; [constructor|].
+  destruct (f start); [|apply IH]. constructor; [apply IH|].
+  apply Forall_forall. intros b Hb. apply filter_In in Hb. destruct Hb as [Hb _]. apply in_seq in Hb. lia.
+Qed.
+
+Lemma actives_sorted (p : sprog) k : Sorted.StronglySorted lt (actives p k).
+Proof. unfold actives. apply filter_seq_sorted. Qed.
+
+(* `walk_program` where the hypothesis on the thread step may use a property `okacts` of the list of
+   branches that holds of every `actives p k` (e.g. `actives_lt`, `actives_sorted`) *)
+Section WalkActs.
+  Variable cls : forall A : Type, (A -> Prop) -> comp A -> Prop.
+  Hypothesis CC : code_class cls.
+  Notation dval_ok := (dval_okC cls).
+  Notation st_ok := (st_okC cls).
+
+  Variable simr : forall A : Type, (A -> Prop) -> comp A -> comp A -> Prop.
+  Hypothesis simr_refl : forall A (Q : A -> Prop) c, cls A Q c -> simr A Q c c.
+  Hypothesis simr_bind : forall A B (Q : A -> Prop) (R : B -> Prop) c1 c2 f1 f2,
+      simr A Q c1 c2 -> (forall a, Q a -> simr B R (f1 a) (f2 a)) -> simr B R (bind c1 f1) (bind c2 f2).
+  Variable okacts : list nat -> Prop.
+  Hypothesis simr_thread_step : forall (C : Type) acts (caps : comp C) (child : C -> nat -> comp dval),
+      okacts acts -> cls C top caps -> (forall cp b, cls dval dval_ok (child cp b)) ->
+      simr dval dval_ok
+           (std_thread_step acts caps (fun cp b => let! d := child cp b in to_val d))
+           (let! cp := caps in let! ds := mapM (child cp) acts in Spec.vals_tuple ds).
+
+  Variable msem : string -> option (list operand) -> dval -> list dval -> comp dval.
+  Variable dotsem : operand -> list (string * option val) -> dval -> comp dval.
+  Variable callsem : val -> list dval -> comp dval.
+  Variable awaitsem : val -> comp val.
+  Hypothesis HU : user_codeC cls msem dotsem callsem awaitsem.
+  Variable p : sprog.
+  Hypothesis Hsync : is_async (sp_cfg p) = false.
+  Hypothesis okacts_actives : forall k, okacts (actives p k).
+
+  Notation ps := (with_spawn true p).
+  Notation pp := (with_spawn false p).
+  Notation Steps := (steps msem dotsem callsem awaitsem).
+  Notation Step_result := (step_result msem dotsem callsem awaitsem).
+  Notation Chain := (chain msem dotsem callsem).
+
+  Lemma walkA_step_result k st : st_ok st -> simr _ dval_ok (Step_result ps k st) (Step_result pp k st).
+  Proof.
+    intros Hst. destruct (Nat.ltb 1 (List.length (actives pp k))) eqn:Hm.
+    - rewrite (step_result_spawn_multi msem dotsem callsem awaitsem ps k st Hsync eq_refl Hm).
+      rewrite (step_result_plain_multi msem dotsem callsem awaitsem pp k st Hsync eq_refl Hm).
+      refine (simr_thread_step _ (actives pp k) (captures pp (snap_of pp st) k (actives pp k))
+                               (fun cp b => Chain pp (snap_of pp st) cp k st b) _ _ _).
+      + exact (okacts_actives k).
+      + apply (cls_captures cls CC).
+      + intros cp b. eapply cls_chain; eauto.
+    - rewrite (step_result_single msem dotsem callsem awaitsem ps k st Hsync Hm).
+      rewrite (step_result_single msem dotsem callsem awaitsem pp k st Hsync Hm).
+      apply simr_refl.
+      eapply (cc_bind _ CC); [apply (cls_captures cls CC)|]. intros cp _.
+      destruct (actives pp k) as [|b [|]]; try apply (cc_panic _ CC). eapply cls_chain; eauto.
+  Qed.
+
+  Lemma walkA_steps fuel : forall k st, st_ok st -> simr _ dval_ok (Steps ps fuel k st) (Steps pp fuel k st).
+  Proof.
+    induction fuel as [|fuel IH]; intros k st Hst; [apply simr_refl, (cc_panic _ CC)|].
+    rewrite (steps_sync msem dotsem callsem awaitsem ps fuel k st Hsync).
+    rewrite (steps_sync msem dotsem callsem awaitsem pp fuel k st Hsync).
+    eapply simr_bind; [apply walkA_step_result, Hst|]. intros sr Hsr.
+    exact (walk_after cls CC simr simr_refl simr_bind msem dotsem callsem awaitsem HU p _ _ _ k st sr Hst Hsr
+                      (fun st' H => IH (S k) st' H)).
+  Qed.
+
+  Lemma walkA_spec :
+    simr _ dval_ok (spec msem dotsem callsem awaitsem ps) (spec msem dotsem callsem awaitsem pp).
+  Proof.
+    rewrite !(spec_sync msem dotsem callsem awaitsem p Hsync). unfold run_body.
+    eapply simr_bind with (Q := fun ho : option (hkind * dval) => match ho with Some (_, hv) => dval_ok hv | None => True end).
+    - apply simr_refl. cbn [with_spawn sp_handler].
+      destruct (sp_handler p) as [[hk o]|]; [|apply (cc_ret _ CC); exact I].
+      apply (cc_vis _ CC); [discriminate|]. intros v. apply (cc_ret _ CC). exact I.
+    - intros ho Hho. eapply simr_bind.
+      + apply walkA_steps. apply Forall_forall. intros o Ho. apply in_map_iff in Ho.
+        destruct Ho as (x & <- & _). exact I.
+      + intros rs Hrs. apply simr_refl. eapply cls_handle_results; eauto.
+  Qed.
+
+  Lemma walkA_program :
+    simr _ top (let! d := spec msem dotsem callsem awaitsem ps in to_val d)
+               (let! d := spec msem dotsem callsem awaitsem pp in to_val d).
+  Proof. eapply simr_bind; [apply walkA_spec|]. intros d _. apply simr_refl. eapply cls_to_val; eauto. Qed.
+End WalkActs.
